@@ -32,7 +32,7 @@ def cases(ctx):
     yield {"kind": "g4", "what": "pieces", "maxlen": ctx.pick(4, 5)}
     yield {"kind": "g4", "what": "chars1", "maxlen": ctx.pick(7, 8)}
     yield {"kind": "g4", "what": "chars2", "maxlen": ctx.pick(8, 9)}
-    for fcfg in ipref.file_configs(rng, ctx.per_shard(ctx.pick(240, 6000)), quick=ctx.quick):
+    for fcfg in ipref.file_configs(rng, ctx.per_shard(ctx.pick(240, 60000)), quick=ctx.quick):
         yield {"kind": "labelled", "fcfg": fcfg, "lseed": rng.getrandbits(32), "nlines": 40}
 
 
